@@ -43,7 +43,14 @@ Definition check (c : case) : N :=
          (oeqb o_back (Ok bs) && oeqb o_back0x (Ok bs))
   | CText k text o =>
     code (oeqb (unmarshal_text k text) o)
-         (match o with Ok bs => Nat.eqb (length bs) k | _ => true end)
+         (* accepted text must be the hex form (optional 0x) of exactly k bytes, decoded to those bytes *)
+         (match o with
+          | Ok bs => match hex_dec (trim0x text) with
+                     | Ok b => Nat.eqb (length b) k && bytes_eqb b bs
+                     | _ => false
+                     end
+          | _ => true
+          end)
   | CBinRT bs o_bin o_back =>
     code (bytes_eqb (marshal_binary bs) o_bin && oeqb (unmarshal_binary (length bs) o_bin) o_back)
          (bytes_eqb o_bin (rev bs) && oeqb o_back (Ok bs))
